@@ -9,7 +9,8 @@ ExprHash_Trace.tla (recorded groups).
            LawUnlessSched (as built, the law fails only between scheduler expressions), control:
            LawAsBuilt is violated.  ExprLife: HashStable, RoundTripOK.
   spec->code  every item of the universe is built on the real code (tasks / scheduler tasks from a
-           generated module, .options(), .export_options(), nested expressions, operator and value
+           generated module, .options(), .export_options() -- also equal exported names with different
+           values, through the api and the constructor --, nested expressions, operator and value
            expressions); for every pair the real get_hash() equality is compared with the law.
            Every life-cycle behaviour is replayed on a real expression (pickle round trips).
   code->spec  random groups of deeper expressions are built, hashed, recorded as (abstract fields,
@@ -28,7 +29,8 @@ from ..tlc import expect_clean, expect_violation
 META = {
     "level": "model_checking",
     "level_text": "TLC checks, for every pair of expressions of a bounded universe (4 kinds, names, "
-                  "argument tuples incl. nested expressions, call-time options, exported options), "
+                  "argument tuples incl. nested expressions, call-time options, exported options incl. "
+                  "equal exported names with different values, api and constructor route), "
                   "that the pre-image scheme separates exactly the denoted calls, and that the "
                   "as-built scheme fails only between scheduler expressions; every item and pair is "
                   "materialised on redun.expression and the equality pattern of real get_hash() "
@@ -137,6 +139,20 @@ def short(e: dict) -> str:
         head += "[ctor]"
     args = [arg(a) for a in e["pos"]] + [f"{k}={arg(a)}" for k, a in e["kw"]]
     return head + "(" + ", ".join(args) + ")"
+
+
+def expo_value_pairs(cases) -> dict:
+    """Cases whose two expressions have equal exported option names and differ only in their values."""
+    out: dict = {}
+    for c in cases:
+        a, b = c.info["a"], c.info["b"]
+        if (a["expo"] != b["expo"] and [k for k, _ in a["expo"]] == [k for k, _ in b["expo"]]
+                and all(a[f] == b[f] for f in ("kind", "name", "pos", "kw", "opts", "via"))):
+            k = f"{a['kind']}/{a['via']}"
+            out[k] = out.get(k, 0) + 1
+            if c.law != "d":
+                raise MachineryError(f"law does not separate exported option values: {short(a)} / {short(b)}")
+    return out
 
 
 def cfg(spec: str, nn, na, no, ne, nest, maxops, invs) -> str:
@@ -259,7 +275,11 @@ def replay_life(w: World, e: dict, hist: list):
 # ---------------------------------------------------------------------------------------------
 OPT_POOL = [[], [["tag", "A"]], [["tag", "B"]], [["tag", "A"], ["mem", "1"]], [["mem", "1"], ["tag", "A"]],
             [["mem", "2"]], [["tag", "A"], ["mem", "1"], ["zone", "x"]]]
-EXPO_POOL = [[], [], [["lim", "1"]], [["tag", "B"]], [["lim", "1"], ["grp", "g"]]]
+# exported options: the same names occur with different values (the value of an exported option is
+# part of the denoted call, the hash of the names alone does not separate the calls)
+EXPO_POOL = [[], [], [["lim", "1"]], [["lim", "2"]], [["tag", "B"]], [["tag", "A"]],
+             [["lim", "1"], ["grp", "g"]], [["lim", "2"], ["grp", "g"]], [["lim", "1"], ["grp", "h"]]]
+OPT_VALUES = {"tag": ["A", "B"], "mem": ["1", "2"], "zone": ["x", "y"], "lim": ["1", "2"], "grp": ["g", "h"]}
 
 
 def rand_expr(rng, depth: int) -> dict:
@@ -279,7 +299,7 @@ def rand_expr(rng, depth: int) -> dict:
     kw = [[k, arg(depth)] for k in rng.sample(["k", "m", "z"], rng.choice([0, 0, 1, 2]))]
     return {"kind": kind, "name": rng.choice(["n1", "n2", "n3"]), "pos": pos, "kw": kw,
             "opts": copy.deepcopy(rng.choice(OPT_POOL)), "expo": copy.deepcopy(rng.choice(EXPO_POOL)),
-            "via": rng.choice(["api", "api", "ctor"]) if kind == "sched" else "api"}
+            "via": rng.choice(["api", "api", "ctor"])}
 
 
 def mutate(rng, e: dict) -> dict:
@@ -298,9 +318,18 @@ def mutate(rng, e: dict) -> dict:
 
     walk(e)
     x = rng.choice(nodes)
-    what = rng.choice(["opts", "opts", "expo", "name", "atom", "kworder", "kind"])
+    what = rng.choice(["opts", "opts", "expo", "expoval", "expoval", "optval", "name", "atom", "kworder", "kind"])
     if x["kind"] in ("task", "sched"):
-        if what == "opts":
+        if what in ("expoval", "optval"):
+            # same option names, another value for one of them
+            pairs = x["expo" if what == "expoval" else "opts"]
+            if not pairs and what == "expoval":
+                x["expo"] = copy.deepcopy(rng.choice([p for p in EXPO_POOL if p]))
+                pairs = x["expo"]
+            if pairs:
+                kv = rng.choice(pairs)
+                kv[1] = rng.choice([v for v in OPT_VALUES[kv[0]] if v != kv[1]])
+        elif what == "opts":
             x["opts"] = copy.deepcopy(rng.choice(OPT_POOL))
         elif what == "expo":
             x["expo"] = copy.deepcopy(rng.choice(EXPO_POOL))
@@ -382,13 +411,22 @@ def backward(ctx: Ctx, w: World, ngroups: int) -> list[Case]:
     ctx.sample({"source": "recorded group", "items": [short(e) for e in groups[0]["items"]],
                 "observed_classes": groups[0]["cls"]})
     ctx.note("recorded_groups", len(groups) - 1)
+    nval = 0
+    for g in groups[:-1]:
+        its = g["items"]
+        nval += sum(1 for i in range(len(its)) for j in range(i + 1, len(its))
+                    if its[i]["kind"] in ("task", "sched") and its[i]["expo"] != its[j]["expo"]
+                    and [k for k, _ in its[i]["expo"]] == [k for k, _ in its[j]["expo"]]
+                    and all(its[i][f] == its[j][f] for f in ("kind", "name", "pos", "kw", "opts", "via")))
+    ctx.note("recorded_pairs_differing_only_in_exported_option_values", nval)
     return cases
 
 
 # ---------------------------------------------------------------------------------------------
 E2E_SRC = '''
 from redun import task
-from redun.task import scheduler_task
+from redun.scheduler import JobInfo
+from redun.task import CacheScope, scheduler_task
 
 @scheduler_task(namespace={ns!r})
 def probe(scheduler, parent_job, sexpr, x):
@@ -406,6 +444,23 @@ def parent():
 @task(namespace={ns!r})
 def parent_nested():
     return [tprobe(probe.options(tag="A")(1)), tprobe(probe.options(tag="B")(1))]
+
+# exported options: same names, different values (the value travels in the job options)
+# (cache_scope NONE: options are by design not part of the evaluation key, so with any caching the
+# second JOB would be answered by the first; C18 is about the EXPRESSIONS being kept apart)
+@task(namespace={ns!r}, cache_scope=CacheScope.NONE)
+def flavor(x, job_info: JobInfo = JobInfo()):
+    return job_info.options.get("flavor")
+
+@task(namespace={ns!r}, cache_scope=CacheScope.NONE)
+def via_child(x):
+    return flavor(x)
+
+@task(namespace={ns!r})
+def parent_exported():
+    return [flavor.export_options(flavor="a")(1), flavor.export_options(flavor="b")(1),
+            via_child.export_options(flavor="c")(2), via_child.export_options(flavor="d")(2),
+            probe.export_options(tag="A")(3), probe.export_options(tag="B")(3)]
 '''
 
 
@@ -415,6 +470,7 @@ def end_to_end(ctx: Ctx) -> None:
     with fresh_scheduler() as s:
         got = s.run(mod.parent())
         got2 = s.run(mod.parent_nested())
+        got3 = s.run(mod.parent_exported())
         # bookkeeping as the scheduler really fills it in, then a pickle round trip
         e = mod.tprobe(7, tag="x")
         s.run(e)
@@ -425,7 +481,17 @@ def end_to_end(ctx: Ctx) -> None:
         if e2.get_hash() != e.get_hash() or e2.__dict__.get("call_hash", 0) is not None:
             ctx.violation("an evaluated TaskExpression does not come back from a pickle round trip with the same "
                           "hash and cleared call_hash", {"e2e": "round trip"})
-    ctx.count_impl_trace(3)
+    ctx.count_impl_trace(4)
+    # two calls that differ only in the VALUE of an exported option, beneath one parent job, must
+    # both run and see their own value (task, child of the task, scheduler task)
+    want3 = ["a", "b", "c", "d", [3, "A"], [3, "B"]]
+    ctx.note("e2e_exported_option_values", got3)
+    if got3 != want3:
+        ctx.violation("[flavor.export_options(flavor='a')(1), flavor.export_options(flavor='b')(1), "
+                      "via_child.export_options(flavor='c')(2), via_child.export_options(flavor='d')(2), "
+                      "probe.export_options(tag='A')(3), probe.export_options(tag='B')(3)] beneath one parent job "
+                      f"returned {got3}, every call must see its own exported value: {want3}",
+                      {"e2e": "parent_exported", "observed": got3})
     tags = [g[1] for g in got]
     tags2 = [g[0][1] for g in got2]
     ctx.note("e2e_probe_result", {"parent": got, "parent_nested": got2})
@@ -448,7 +514,7 @@ def run(ctx: Ctx) -> None:
     w = World(ctx)
     cases: list[Case] = []
     with TagSpy() as spy:
-        consts = ctx.pick((2, 2, 3, 2, 1, 3), (3, 3, 5, 3, 1, 4))
+        consts = ctx.pick((2, 2, 3, 2, 1, 3), (3, 3, 5, 4, 1, 4))
         with timed(ctx, "forward"):
             cases += forward(ctx, w, consts, "flat product + nested part", spy)
         ctx.require(spy.calls > 0, "hash_struct spy recorded nothing")
@@ -469,6 +535,7 @@ def run(ctx: Ctx) -> None:
     if ex:
         ctx.sample({"source": "ExprHash pair", "a": short(ex[len(ex) // 2].info["a"]),
                     "b": short(ex[len(ex) // 2].info["b"]), "law": "different", "real": ex[len(ex) // 2].real})
+    ctx.note("pairs_differing_only_in_exported_option_values", expo_value_pairs(cases))
     un = [c for c in cases if c.law == "u"]
     ctx.note("option_order_pairs", {"n": len(un), "observed_different": sum(1 for c in un if c.real == "d")})
 
